@@ -30,7 +30,7 @@ CONSTANTS Targets,     \* target names (strings)
           DeclDeps,    \* [Targets -> SUBSET (Targets \cup Aliases)] declared dependencies
           Aliases,     \* alias names
           AliasMenu,   \* [Aliases -> SUBSET Targets] what an alias may point to (must precede its users in Order)
-          OutKind,     \* [Targets -> {"file", "sub", "dir", "pair", "none"}] ("pair" = two declared file outputs)
+          OutKind,     \* [Targets -> {"file", "sub", "dir", "pair", "none"}] ("pair" = two declared file outputs, "bin" = a bin_output only)
           InFiles,     \* [Targets -> set of input file names]
           GlobT,       \* targets whose inputs are declared by a glob (absent files are not inputs)
           CheckT,      \* targets with an output check on an external condition
